@@ -27,6 +27,8 @@ pub enum Verdict {
 pub enum Layer {
     /// `not(expression)`
     Not(Expr),
+    /// `not(any([expressions]))` — may be partitioned into an exhaustive and a non-exhaustive part
+    NotAny(Vec<Expr>),
     /// `filter_entry(|e| table.get(relative path))`; an empty table is a pure probe
     Table(Vec<(String, Verdict)>),
 }
@@ -97,6 +99,14 @@ macro_rules! gen_apply {
                 Some((Layer::Not(e), rest)) => {
                     let text = render_text(e);
                     $next(walk.not(Glob::new(&text)?.into_owned())?, rest, ctx, idx + 1)
+                },
+                Some((Layer::NotAny(es), rest)) => {
+                    let texts: Vec<String> = es.iter().map(render_text).collect();
+                    let mut gs = Vec::new();
+                    for t in &texts {
+                        gs.push(Glob::new(t)?.into_owned());
+                    }
+                    $next(walk.not(wax::any(gs))?, rest, ctx, idx + 1)
                 },
                 Some((Layer::Table(t), rest)) => {
                     let log = ctx.logs[idx].clone();
@@ -182,6 +192,15 @@ pub fn prepare_layers(layers: &[Layer]) -> Result<Vec<LayerRt>, BuildError> {
                     nonexhaustive: ne.and_then(|p| regex::Regex::new(&p).ok()),
                 });
             },
+            Layer::NotAny(es) => {
+                let texts: Vec<String> = es.iter().map(render_text).collect();
+                let (ex, ne) = wax::walk::verif_negation_patterns(wax::any(texts.iter().map(|s| s.as_str())))?;
+                out.push(LayerRt {
+                    layer: l.clone(),
+                    exhaustive: ex.and_then(|p| regex::Regex::new(&p).ok()),
+                    nonexhaustive: ne.and_then(|p| regex::Regex::new(&p).ok()),
+                });
+            },
             Layer::Table(_) => out.push(LayerRt { layer: l.clone(), exhaustive: None, nonexhaustive: None }),
         }
     }
@@ -190,7 +209,7 @@ pub fn prepare_layers(layers: &[Layer]) -> Result<Vec<LayerRt>, BuildError> {
 
 pub fn layer_verdict(l: &LayerRt, rel: &str) -> Verdict {
     match &l.layer {
-        Layer::Not(_) => {
+        Layer::Not(_) | Layer::NotAny(_) => {
             if l.exhaustive.as_ref().map_or(false, |r| r.is_match(rel)) {
                 Verdict::Tree
             }
@@ -492,7 +511,33 @@ pub fn gen_layers(t: &mut Tape, tree: &TreeSpec, min: usize) -> Vec<Layer> {
     let n = (min + t.weighted(&[25, 35, 25, 15])).min(MAX_LAYERS);
     (0..n)
         .map(|_| {
-            if t.chance(120) {
+            if t.chance(40) {
+                // a negation that may be partitioned: several alternatives, often an exhaustive and
+                // a non-exhaustive one that match the same directory
+                let n = 2 + t.below(2);
+                let mut es: Vec<Expr> = (0..n).map(|_| gen_not_expr(t, tree)).collect();
+                if t.chance(160) && !tree.nodes.is_empty() {
+                    let paths: Vec<String> = tree.nodes.iter().filter(|n| matches!(n.kind, Kind::Dir)).map(|n| n.path.clone()).collect();
+                    if !paths.is_empty() {
+                        let d = t.pick(&paths);
+                        let name = d.rsplit('/').next().unwrap_or("").to_string();
+                        let mut ex = literal_prefix(&d, false);
+                        ex.push(Tok::Tree { lead: true, trail: false });
+                        let ne = match t.below(3) {
+                            0 => literal_prefix(&d, false),
+                            1 => vec![Tok::Tree { lead: false, trail: true }, Tok::lit(&name)],
+                            _ => vec![Tok::Tree { lead: false, trail: true }, Tok::lit(&name), Tok::Zom { lazy: false }],
+                        };
+                        es[0] = merge_lits(&normalize(&ex, true));
+                        es[1] = merge_lits(&normalize(&ne, true));
+                        if t.chance(128) {
+                            es.swap(0, 1);
+                        }
+                    }
+                }
+                Layer::NotAny(es)
+            }
+            else if t.chance(110) {
                 Layer::Not(gen_not_expr(t, tree))
             }
             else {
